@@ -285,7 +285,7 @@ variable {D : Type}
 
 /-- the `WHERE` clause of `get_events` / `get_eventcount` on a row -/
 def winRow (st en : Option Int) (row : ERow D) : Bool :=
-  (match st with | some a => decide (row.en ≥ a) | none => decide (row.en ≥ 0)) &&
+  (match st with | some a => decide (row.en ≥ a) | none => true) &&
   (match en with | some z => decide (row.st ≤ z) | none => true)
 
 theorem toEv_fin (row : ERow D) : (toEv row).ts + (toEv row).dur = row.en := by
@@ -293,13 +293,17 @@ theorem toEv_fin (row : ERow D) : (toEv row).ts + (toEv row).dur = row.en := by
 
 theorem toEv_ts (row : ERow D) : (toEv row).ts = row.st := rfl
 
-/-- the clause is the closed-interval test, plus `endtime >= 0` when no start is given -/
+/-- the clause is exactly the closed-interval test (repaired, F22: no lower bound when no start
+    is given; before the repair the clause added `endtime >= 0` in that case) -/
 theorem winRow_iff (st en : Option Int) (row : ERow D) :
-    winRow st en row = true ↔
-      inWindow st en (toEv row) = true ∧ (st = none → 0 ≤ (toEv row).ts + (toEv row).dur) := by
+    winRow st en row = true ↔ inWindow st en (toEv row) = true := by
   rw [inWindow_iff, toEv_fin, toEv_ts]
   cases st <;> cases en <;> simp [winRow]
-  exact And.comm
+
+theorem winRow_eq (st en : Option Int) (row : ERow D) :
+    winRow st en row = inWindow st en (toEv row) := by
+  have := winRow_iff st en row
+  cases h1 : winRow st en row <;> cases h2 : inWindow st en (toEv row) <;> simp_all
 
 theorem rows_of_view {s : St D} {b : String} {m : Meta} {es : List (Ev D)}
     (h : view s b = some (m, es)) : ∃ r, rowOf s b = some r ∧ es = (rowsOf s r).map toEv := by
@@ -376,8 +380,7 @@ theorem mem_selected (s : St D) (r : Int) (st en : Option Int) (row : ERow D) :
 /-- soundness: every returned event is a stored event of the bucket and lies in the window -/
 theorem get_sound (s : St D) (b : String) (limit : Int) (st en : Option Int) (x : Ev D)
     (hx : x ∈ getEvents s b limit st en) :
-    ∃ m es, view s b = some (m, es) ∧ x ∈ es ∧ inWindow st en x = true ∧
-      (st = none → 0 ≤ x.ts + x.dur) := by
+    ∃ m es, view s b = some (m, es) ∧ x ∈ es ∧ inWindow st en x = true := by
   cases hr : rowOf s b with
   | none =>
     rw [getEvents_missing s b ((view_none_iff_rowOf s b).mpr hr)] at hx
@@ -387,27 +390,19 @@ theorem get_sound (s : St D) (b : String) (limit : Int) (st en : Option Int) (x 
     obtain ⟨row, hrow, rfl⟩ := List.mem_map.mp (mem_of_mem_applyLimit hx)
     obtain ⟨hmem, hwin⟩ := (mem_selected s r st en row).mp hrow
     obtain ⟨m, hv⟩ := view_of_rowOf hr
-    have hw := (winRow_iff st en row).mp hwin
-    exact ⟨m, _, hv, List.mem_map_of_mem hmem, hw.1, hw.2⟩
+    exact ⟨m, _, hv, List.mem_map_of_mem hmem, (winRow_iff st en row).mp hwin⟩
 
-/-- completeness (no limit). PARTIAL: with no start bound the statement reads `endtime >= 0`,
-    so an event ending before 1970 is not returned (`get_complete_counterexample`). -/
-theorem get_complete_partial (s : St D) (b : String) (limit : Int) (hl : limit < 0)
+/-- completeness (no limit), with or without a start bound (repaired, F22; before the repair a
+    read without a start bound missed events ending before 1970 and this lemma carried the
+    hypothesis `st = none → 0 ≤ e.ts + e.dur` under the name `get_complete_partial`) -/
+theorem get_complete (s : St D) (b : String) (limit : Int) (hl : limit < 0)
     (st en : Option Int) (m : Meta) (es : List (Ev D)) (hv : view s b = some (m, es))
-    (e : Ev D) (he : e ∈ es) (hw : inWindow st en e = true)
-    (hpos : st = none → 0 ≤ e.ts + e.dur) :
+    (e : Ev D) (he : e ∈ es) (hw : inWindow st en e = true) :
     e ∈ getEvents s b limit st en := by
   obtain ⟨r, hr, rfl⟩ := rows_of_view hv
   rw [getEvents_eq s b r hr, applyLimit_neg _ hl]
   obtain ⟨row, hrow, rfl⟩ := List.mem_map.mp he
-  exact List.mem_map_of_mem ((mem_selected s r st en row).mpr ⟨hrow, (winRow_iff st en row).mpr ⟨hw, hpos⟩⟩)
-
-/-- completeness with a start bound needs no extra hypothesis -/
-theorem get_complete (s : St D) (b : String) (limit : Int) (hl : limit < 0)
-    (a : Int) (en : Option Int) (m : Meta) (es : List (Ev D)) (hv : view s b = some (m, es))
-    (e : Ev D) (he : e ∈ es) (hw : inWindow (some a) en e = true) :
-    e ∈ getEvents s b limit (some a) en :=
-  get_complete_partial s b limit hl (some a) en m es hv e he hw (fun h => by cases h)
+  exact List.mem_map_of_mem ((mem_selected s r st en row).mpr ⟨hrow, (winRow_iff st en row).mpr hw⟩)
 
 /-- results are ordered by timestamp descending -/
 theorem get_sorted (s : St D) (b : String) (limit : Int) (st en : Option Int) :
@@ -465,41 +460,35 @@ theorem count_eq (s : St D) (b : String) (st en : Option Int) :
     unfold selected; rw [length_orderDesc]
     unfold getEventcount; simp only [hr]; rfl
 
-/-- when every stored event ends in 1970 or later, the count is the number of stored events
-    meeting the closed-interval test -/
+/-- the count is the number of stored events meeting the closed-interval test -/
 theorem count_eq_spec (s : St D) (b : String) (st en : Option Int) (m : Meta) (es : List (Ev D))
-    (hv : view s b = some (m, es)) (hpos : ∀ e ∈ es, 0 ≤ e.ts + e.dur) :
+    (hv : view s b = some (m, es)) :
     getEventcount s b st en = (es.filter (inWindow st en)).length := by
   obtain ⟨r, hr, rfl⟩ := rows_of_view hv
   unfold getEventcount; simp only [hr]
   rw [List.filter_map, List.length_map]
   congr 1
   apply List.filter_congr
-  intro row hrow
-  have hp := hpos (toEv row) (List.mem_map_of_mem hrow)
-  have := winRow_iff st en row
-  show winRow st en row = (inWindow st en ∘ toEv) row
-  cases h1 : winRow st en row <;> cases h2 : inWindow st en (toEv row) <;> simp_all
+  intro row _
+  exact winRow_eq st en row
 
-/-- widening the window never lowers the count (stored ends ≥ 1970) -/
+/-- widening the window never lowers the count -/
 theorem count_window_mono (s : St D) (b : String) (st en st' en' : Option Int)
-    (hw : winWider st' en' st en)
-    (hpos : ∀ m es, view s b = some (m, es) → ∀ e ∈ es, 0 ≤ e.ts + e.dur) :
+    (hw : winWider st' en' st en) :
     getEventcount s b st en ≤ getEventcount s b st' en' := by
   cases hv : view s b with
   | none => rw [getEventcount_missing s b hv, getEventcount_missing s b hv]; exact Nat.le_refl _
   | some p =>
     obtain ⟨m, es⟩ := p
-    rw [count_eq_spec s b st en m es hv (hpos m es hv), count_eq_spec s b st' en' m es hv (hpos m es hv)]
+    rw [count_eq_spec s b st en m es hv, count_eq_spec s b st' en' m es hv]
     exact length_filter_mono _ _ _ (fun x _ h => inWindow_mono hw x h)
 
 /-- `Bucket.get` reads the rounded window, `get_eventcount` the requested one: the count never
     exceeds the number of events the (unlimited) read returns -/
-theorem count_le_get_rounded (s : St D) (b : String) (st en : Option Int)
-    (hpos : ∀ m es, view s b = some (m, es) → ∀ e ∈ es, 0 ≤ e.ts + e.dur) :
+theorem count_le_get_rounded (s : St D) (b : String) (st en : Option Int) :
     getEventcount s b st en ≤ (getEvents s b (-1) (roundWin st en).1 (roundWin st en).2).length := by
   rw [← count_eq]
-  exact count_window_mono s b st en _ _ (roundWin_wider st en) hpos
+  exact count_window_mono s b st en _ _ (roundWin_wider st en)
 
 /-! concrete state: two buckets, three events in bucket "a" (one before 1970), one in "b" -/
 def exReads : St Unit :=
@@ -513,30 +502,47 @@ example : getEvents exReads "a" (-1) (some 5000) (some 6000)
 example : getEvents exReads "a" 1 (some 5000) (some 6000) = [⟨some 3, 5000, 0, ()⟩] := by decide
 example : getEventcount exReads "a" (some 5000) (some 6000) = 2 := by decide
 
-/-- the hypotheses of `count_window_mono` are satisfiable (bucket "b") -/
+/-- the hypothesis of `count_window_mono` is satisfiable (bucket "b") -/
 example : getEventcount exReads "b" (some 6500) (some 6600) ≤ getEventcount exReads "b" none (some 7000) := by
   apply count_window_mono
-  · constructor
-    · intro a' h; cases h
-    · intro z' h; cases h; exact ⟨6600, rfl, by decide⟩
-  · intro m es hv
-    have : view exReads "b" = some (default, [⟨some 2, 6000, 1000, ()⟩]) := by decide
-    rw [this] at hv; cases hv; decide
+  constructor
+  · intro a' h; cases h
+  · intro z' h; cases h; exact ⟨6600, rfl, by decide⟩
 
-/-- `get_complete_partial` applied: event 1 of bucket "a" -/
+/-- … and in bucket "a", which holds an event ending before 1970: widening to "no start bound"
+    now counts it (2 ≤ 3) -/
+example : getEventcount exReads "a" (some 5000) (some 6000) ≤ getEventcount exReads "a" none (some 6000) := by
+  apply count_window_mono
+  constructor
+  · intro a' h; cases h
+  · intro z' h; cases h; exact ⟨6000, rfl, by decide⟩
+example : getEventcount exReads "a" none (some 6000) = 3 := by decide
+
+/-- `get_complete` applied: event 1 of bucket "a" -/
 example : (⟨some 1, 5000, 4000, ()⟩ : Ev Unit) ∈ getEvents exReads "a" (-1) none (some 6000) :=
-  get_complete_partial exReads "a" (-1) (by decide) none (some 6000) default
+  get_complete exReads "a" (-1) (by decide) none (some 6000) default
     [⟨some 1, 5000, 4000, ()⟩, ⟨some 3, 5000, 0, ()⟩, ⟨some 4, -9000, 1000, ()⟩] (by decide) _
-    (by decide) (by decide) (fun _ => by decide)
+    (by decide) (by decide)
 
-/-- the counterexample to unconditional completeness: an event ending before 1970 is stored in
-    the bucket, lies in the (unbounded) window, and is not returned -/
-theorem get_complete_counterexample :
-    ∃ (s : St Unit) (m : Meta) (es : List (Ev Unit)) (e : Ev Unit),
-      view s "a" = some (m, es) ∧ e ∈ es ∧ inWindow none none e = true ∧
-      e ∉ getEvents s "a" (-1) none none :=
-  ⟨exReads, default, [⟨some 1, 5000, 4000, ()⟩, ⟨some 3, 5000, 0, ()⟩, ⟨some 4, -9000, 1000, ()⟩],
-   ⟨some 4, -9000, 1000, ()⟩, by decide, by decide, by decide, by decide⟩
+/-- `get_complete` applied to the event of bucket "a" that ends before 1970 -/
+example : (⟨some 4, -9000, 1000, ()⟩ : Ev Unit) ∈ getEvents exReads "a" (-1) none none :=
+  get_complete exReads "a" (-1) (by decide) none none default
+    [⟨some 1, 5000, 4000, ()⟩, ⟨some 3, 5000, 0, ()⟩, ⟨some 4, -9000, 1000, ()⟩] (by decide) _
+    (by decide) (by decide)
+
+/-- history of repair F22. Before the repair this witness was the counterexample to unconditional
+    completeness (`get_complete_counterexample`: the event ending before 1970 is stored in the
+    bucket, lies in the unbounded window, and was NOT returned, because a read without a start
+    bound added `endtime >= 0`). On the same witness the repaired read returns it, last in
+    `ORDER BY starttime DESC`. -/
+theorem get_complete_before_epoch_now_read :
+    view exReads "a" = some (default,
+      [⟨some 1, 5000, 4000, ()⟩, ⟨some 3, 5000, 0, ()⟩, ⟨some 4, -9000, 1000, ()⟩]) ∧
+    inWindow none none (⟨some 4, -9000, 1000, ()⟩ : Ev Unit) = true ∧
+    getEvents exReads "a" (-1) none none
+      = [⟨some 3, 5000, 0, ()⟩, ⟨some 1, 5000, 4000, ()⟩, ⟨some 4, -9000, 1000, ()⟩] ∧
+    getEventcount exReads "a" none none = 3 :=
+  ⟨by decide, by decide, by decide, by decide⟩
 
 end Aw.Store.Sqlite
 
